@@ -134,6 +134,60 @@ def indexed : Expr → Bool
   | .idx1 _ _ => true | .idx2 _ _ _ => true | .idxs _ _ _ => true
   | _ => false
 
+/-- well-formedness of one CodeBlock w.r.t. the rule: when the rule records the names of the text,
+the variables the CodeBlock may read / designates are among them; when it records nothing, the
+CodeBlock mentions no variable at all -/
+def cbNode (c : Ctx) (names rd : List Nat) (dv : Option Nat) : Bool :=
+  if c.rule.cbRW then (rd ++ dv.toList).all (fun x => names.contains x) else rd.isEmpty && dv.isNone
+
+/-- `e` as the (skipped) first argument of an inquiry intrinsic: the rule visits what has to be
+evaluated to locate the inquired object, or there is nothing to evaluate -/
+def firstOk1 (c : Ctx) : Expr → Bool
+  | .cb _ _ rd dv => (c.rule.inqSubs && c.rule.inqCb) || (cbSubs rd dv).isEmpty
+  | e => c.rule.inqSubs || !indexed e
+
+def firstOk (c : Ctx) : Expr → Bool
+  | .cons e _ => firstOk1 c e
+  | _ => true
+
+/-- side condition on an expression: every CodeBlock in it is well-formed (`cbNode`) and every
+inquiry intrinsic is applied to an object whose subscripts the rule visits (`firstOk`): without
+fixes/C11-inquiry-subscripts.patch `IntrinsicCall.reference_accesses` skips the whole first
+argument of an inquiry (`size(w(idx(j):))`), also the subscripts that have to be evaluated; a
+CodeBlock there (`len(names(k)(1:n))`) is still skipped -/
+def okE (c : Ctx) : Expr → Bool
+  | .lit _ => true
+  | .var _ => true
+  | .nil => true
+  | .idx1 _ i => okE c i
+  | .idx2 _ i j => okE c i && okE c j
+  | .idxs _ _ is => okE c is
+  | .un _ e => okE c e
+  | .bin _ a b => okE c a && okE c b
+  | .intr k args => (!(c.attrs k).inquiry || firstOk c args) && okE c args
+  | .fcall _ _ args => okE c args
+  | .cb _ names rd dv => cbNode c names rd dv
+  | .cons e rest => okE c e && okE c rest
+
+theorem mem_cbAcc {c : Ctx} {names : List Nat} {n x : Nat} (hc : c.rule.cbRW = true) (hx : x ∈ names) :
+    (⟨x, .readwrite, n, 0⟩ : Access) ∈ cbAcc c names n := by
+  simp only [cbAcc, hc, if_true]
+  exact List.mem_map.mpr ⟨x, hx, rfl⟩
+
+/-- a well-formed CodeBlock's READWRITE accesses cover the reads of any of its variables -/
+theorem cbAcc_covers_rd (c : Ctx) (names rd : List Nat) (dv : Option Nat) (n : Nat)
+    (h : cbNode c names rd dv = true) (xs : List Nat) (hx : ∀ x ∈ xs, x ∈ rd) :
+    Covers w (cbAcc c names n) (xs.map (fun x => Event.rd (x, 0, 0))) := by
+  intro ev hev
+  obtain ⟨x, hxs, rfl⟩ := List.mem_map.mp hev
+  by_cases hc : c.rule.cbRW = true
+  · simp only [cbNode, hc, if_true, List.all_eq_true, List.mem_append, List.contains_iff_mem] at h
+    exact ⟨⟨x, .readwrite, n, 0⟩, mem_cbAcc hc (h x (Or.inl (hx x hxs))), rfl, rfl⟩
+  · simp only [cbNode, hc, Bool.false_eq_true, if_false, Bool.and_eq_true, List.isEmpty_iff] at h
+    have := hx x hxs
+    rw [h.1] at this
+    cases this
+
 /-! ## unfolding of `evalT` on a spine -/
 
 theorem evalT_cons_false (ω : Oracle) (tb : Nat → IAttr) (e rest : Expr) (σ : Store) :
@@ -152,9 +206,25 @@ theorem evalT_cons_true (ω : Oracle) (tb : Nat → IAttr) (e rest : Expr) (σ :
        (0, none) :: (evalT ω tb rest false (subsT ω tb e σ).1).args⟩ := by
   cases e <;> simp [evalT, subsT]
 
-theorem subsT_plain (ω : Oracle) (tb : Nat → IAttr) (e : Expr) (σ : Store) (h : indexed e = false) :
+theorem subsT_plain (ω : Oracle) (tb : Nat → IAttr) (e : Expr) (σ : Store) (h : indexed e = false)
+    (hcb : ∀ f names rd dv, e = .cb f names rd dv → cbSubs rd dv = []) :
     subsT ω tb e σ = (σ, []) := by
-  cases e <;> simp [indexed] at h <;> rfl
+  cases e with
+  | cb f names rd dv => simp [subsT, hcb f names rd dv rfl]
+  | idx1 _ _ => simp [indexed] at h
+  | idx2 _ _ _ => simp [indexed] at h
+  | idxs _ _ _ => simp [indexed] at h
+  | _ => rfl
+
+/-- a rule that does not visit the subscripts of inquired objects is only right when there are none -/
+theorem subsT_quiet (c : Ctx) (ω : Oracle) (e : Expr) (σ : Store) (h : firstOk1 c e = true)
+    (hs : ¬ c.rule.inqSubs = true) : subsT ω c.attrs e σ = (σ, []) := by
+  have hs' : c.rule.inqSubs = false := by cases hq : c.rule.inqSubs <;> simp_all
+  apply subsT_plain
+  · cases e <;> simp_all [firstOk1, indexed]
+  · intro f names rd dv he
+    subst he
+    simpa [firstOk1, hs'] using h
 
 /-- only a spine has argument values -/
 theorem args_nil (ω : Oracle) (tb : Nat → IAttr) (e : Expr) (sk : Bool) (σ : Store)
@@ -169,21 +239,34 @@ theorem args_nil (ω : Oracle) (tb : Nat → IAttr) (e : Expr) (sk : Bool) (σ :
 /-- the location of a reference expression belongs to the variable that the argument
 visit (`Mode.elem k`) records with kind `k` -/
 theorem loc_elem (c : Ctx) (ω : Oracle) (e : Expr) (k : Kind) (n : Nat) (σ : Store) (l : Loc)
-    (h : (evalT ω c.attrs e false σ).loc = some l) :
-    ∃ a ∈ (acc c e (.elem k) n).1, a.var = l.1 ∧ a.kind = k := by
+    (hq : okE c e = true) (h : (evalT ω c.attrs e false σ).loc = some l) :
+    ∃ a ∈ (acc c e (.elem k) n).1, a.var = l.1 ∧ (a.kind = k ∨ a.kind = .readwrite) := by
   cases e with
   | var x =>
     simp only [evalT, Option.some.injEq] at h
-    subst h; exact ⟨⟨x, k, n, 0⟩, by simp [acc], rfl, rfl⟩
+    subst h; exact ⟨⟨x, k, n, 0⟩, by simp [acc], rfl, Or.inl rfl⟩
   | idx1 a i =>
     simp only [evalT, Option.some.injEq] at h
-    subst h; exact ⟨⟨a, k, n, 0⟩, by simp [acc], rfl, rfl⟩
+    subst h; exact ⟨⟨a, k, n, 0⟩, by simp [acc], rfl, Or.inl rfl⟩
   | idx2 a i j =>
     simp only [evalT, Option.some.injEq] at h
-    subst h; exact ⟨⟨a, k, n, 0⟩, by simp [acc], rfl, rfl⟩
+    subst h; exact ⟨⟨a, k, n, 0⟩, by simp [acc], rfl, Or.inl rfl⟩
   | idxs a cnt is =>
     simp only [evalT, Option.some.injEq] at h
-    subst h; exact ⟨⟨a, k, n, 0⟩, by simp [acc], rfl, rfl⟩
+    subst h; exact ⟨⟨a, k, n, 0⟩, by simp [acc], rfl, Or.inl rfl⟩
+  | cb f names rd dv =>
+    -- a designator CodeBlock: the designated variable is among the names recorded READWRITE
+    cases dv with
+    | none => simp [evalT] at h
+    | some x =>
+      simp only [evalT, Option.map_some, Option.some.injEq] at h
+      subst h
+      simp only [okE] at hq
+      by_cases hc : c.rule.cbRW = true
+      · simp only [cbNode, hc, if_true, List.all_eq_true, List.mem_append, List.contains_iff_mem,
+          Option.toList_some, List.mem_singleton] at hq
+        exact ⟨⟨x, .readwrite, n, 0⟩, by simpa only [acc] using mem_cbAcc hc (hq x (Or.inr rfl)), rfl, Or.inr rfl⟩
+      · simp [cbNode, hc] at hq
   | fcall p f args =>
     simp only [evalT] at h
     split at h <;> simp at h
@@ -198,18 +281,19 @@ def headKind (ko : Option Kind) (mask : Nat) : Option Kind := if mask % 2 = 1 th
 /-- every by-reference element of an evaluated argument spine is recorded with kind `k` or
 READWRITE -/
 theorem args_spine (c : Ctx) (ω : Oracle) (k : Kind) (e : Expr) :
-    ∀ (sk : Bool) (mask n : Nat) (σ : Store) (v : Int) (l : Loc),
+    ∀ (sk : Bool) (mask n : Nat) (σ : Store) (v : Int) (l : Loc), okE c e = true →
       (v, some l) ∈ (evalT ω c.attrs e sk σ).args →
       ∃ a ∈ (acc c e (.spine (some k) mask sk) n).1, a.var = l.1 ∧ (a.kind = k ∨ a.kind = .readwrite) := by
   induction e with
   | cons e rest _ ihr =>
-    intro sk mask n σ v l h
+    intro sk mask n σ v l hq h
+    simp only [okE, Bool.and_eq_true] at hq
     cases sk with
     | true =>
       rw [evalT_cons_true] at h
       simp only [List.mem_cons, Prod.mk.injEq, reduceCtorEq, and_false, false_or] at h
       obtain ⟨a, ha, h1, h2⟩ := ihr false (mask / 2)
-        (if c.rule.inqSubs = true then acc c e .subs n else ([], n)).2 _ v l h
+        (if c.rule.inqSubs = true then acc c e .subs n else ([], n)).2 _ v l hq.2 h
       refine ⟨a, ?_, h1, h2⟩
       simp only [acc, if_true, List.mem_append]
       exact Or.inr ha
@@ -218,33 +302,33 @@ theorem args_spine (c : Ctx) (ω : Oracle) (k : Kind) (e : Expr) :
       simp only [List.mem_cons, Prod.mk.injEq] at h
       rcases h with ⟨_, h⟩ | h
       · by_cases hm : mask % 2 = 1
-        · obtain ⟨a, ha, h1, h2⟩ := loc_elem c ω e .readwrite n σ l h.symm
-          refine ⟨a, ?_, h1, Or.inr h2⟩
+        · obtain ⟨a, ha, h1, h2⟩ := loc_elem c ω e .readwrite n σ l hq.1 h.symm
+          refine ⟨a, ?_, h1, Or.inr (by rcases h2 with h2 | h2 <;> exact h2)⟩
           simp only [acc, Bool.false_eq_true, if_false, hm, if_true, elemMode, List.mem_append]
           exact Or.inl ha
-        · obtain ⟨a, ha, h1, h2⟩ := loc_elem c ω e k n σ l h.symm
-          refine ⟨a, ?_, h1, Or.inl h2⟩
+        · obtain ⟨a, ha, h1, h2⟩ := loc_elem c ω e k n σ l hq.1 h.symm
+          refine ⟨a, ?_, h1, h2⟩
           simp only [acc, Bool.false_eq_true, if_false, hm, elemMode, List.mem_append]
           exact Or.inl ha
       · obtain ⟨a, ha, h1, h2⟩ := ihr false (mask / 2)
-          (acc c e (elemMode (if mask % 2 = 1 then some .readwrite else some k)) n).2 _ v l h
+          (acc c e (elemMode (if mask % 2 = 1 then some .readwrite else some k)) n).2 _ v l hq.2 h
         refine ⟨a, ?_, h1, h2⟩
         simp only [acc, Bool.false_eq_true, if_false, List.mem_append]
         exact Or.inr ha
   | _ =>
-    intro sk mask n σ v l h
+    intro sk mask n σ v l _ h
     rw [args_nil _ _ _ _ _ (by intro a b hab; cases hab)] at h
     cases h
 
 /-- the callee's stores are covered when by-reference arguments are recorded READWRITE -/
 theorem applyUpd_covered (c : Ctx) (ω : Oracle) (u : Nat → Option Int) (e : Expr) (sk : Bool) (k : Kind)
-    (hk : w = true → k = .readwrite) (mask n p : Nat) (σ τ : Store) :
+    (hk : w = true → k = .readwrite) (mask n p : Nat) (σ τ : Store) (hq : okE c e = true) :
     Covers w (acc c e (.spine (some k) mask sk) n).1
       (applyUpd u (evalT ω c.attrs e sk σ).args p τ).2 := by
   intro ev hev
   obtain ⟨l, v, rfl, hmem⟩ := applyUpd_events u _ p τ ev hev
   intro hw
-  obtain ⟨a, ha, h1, h2⟩ := args_spine c ω k e sk mask n σ v l hmem
+  obtain ⟨a, ha, h1, h2⟩ := args_spine c ω k e sk mask n σ v l hq hmem
   refine ⟨a, ha, h1, ?_⟩
   rcases h2 with h2 | h2
   · rw [h2, hk hw]; rfl
@@ -252,13 +336,13 @@ theorem applyUpd_covered (c : Ctx) (ω : Oracle) (u : Nat → Option Int) (e : E
 
 /-- … also when the callee can only store into the arguments selected by a mask -/
 theorem applyUpdM_covered_all (c : Ctx) (ω : Oracle) (u : Nat → Option Int) (e : Expr) (k : Kind)
-    (hk : w = true → k = .readwrite) (mask m n p : Nat) (σ τ : Store) :
+    (hk : w = true → k = .readwrite) (mask m n p : Nat) (σ τ : Store) (hq : okE c e = true) :
     Covers w (acc c e (.spine (some k) mask false) n).1
       (applyUpdM u (evalT ω c.attrs e false σ).args p m τ).2 := by
   intro ev hev
   obtain ⟨l, v, rfl, hmem⟩ := applyUpdM_events u _ p m τ ev hev
   intro hw
-  obtain ⟨a, ha, h1, h2⟩ := args_spine c ω k e false mask n σ v l hmem
+  obtain ⟨a, ha, h1, h2⟩ := args_spine c ω k e false mask n σ v l hq hmem
   refine ⟨a, ha, h1, ?_⟩
   rcases h2 with h2 | h2
   · rw [h2, hk hw]; rfl
@@ -267,71 +351,51 @@ theorem applyUpdM_covered_all (c : Ctx) (ω : Oracle) (u : Nat → Option Int) (
 /-- the arguments selected by the mask are exactly those the static visit marks READWRITE:
 the stores of a callee with declared intents are covered whatever kind the others get -/
 theorem applyUpdM_covered (c : Ctx) (ω : Oracle) (u : Nat → Option Int) (ko : Option Kind) (e : Expr) :
-    ∀ (mask n p : Nat) (σ τ : Store),
+    ∀ (mask n p : Nat) (σ τ : Store), okE c e = true →
       Covers w (acc c e (.spine ko mask false) n).1
         (applyUpdM u (evalT ω c.attrs e false σ).args p mask τ).2 := by
   induction e with
   | cons e rest _ ihr =>
-    intro mask n p σ τ
+    intro mask n p σ τ hq
+    simp only [okE, Bool.and_eq_true] at hq
     rw [evalT_cons_false]
     simp only [acc, Bool.false_eq_true, if_false]
     cases hl : (evalT ω c.attrs e false σ).loc with
     | none =>
       simp only [applyUpdM]
-      exact Covers.right (ihr _ _ _ _ _)
+      exact Covers.right (ihr _ _ _ _ _ hq.2)
     | some l =>
       simp only [applyUpdM]
       split
       · rename_i hm
         have hhead : Covers w (acc c e (elemMode (some Kind.readwrite)) n).1 [Event.wr l] := by
-          obtain ⟨a, ha, h1, h2⟩ := loc_elem c ω e .readwrite n σ l hl
+          obtain ⟨a, ha, h1, h2⟩ := loc_elem c ω e .readwrite n σ l hq.1 hl
           simp only [elemMode]
-          exact Covers.wr_single ha h1 (by rw [h2]; rfl)
+          exact Covers.wr_single ha h1 (by rcases h2 with h2 | h2 <;> (rw [h2]; rfl))
         split
-        · exact Covers.right (ihr _ _ _ _ _)
+        · exact Covers.right (ihr _ _ _ _ _ hq.2)
         · have := Covers.both hhead (ihr (mask / 2) (acc c e (elemMode (some Kind.readwrite)) n).2 (p + 1)
-            (evalT ω c.attrs e false σ).st (τ.set l ‹Int›))
+            (evalT ω c.attrs e false σ).st (τ.set l ‹Int›) hq.2)
           simpa only [List.singleton_append] using this
-      · exact Covers.right (ihr _ _ _ _ _)
+      · exact Covers.right (ihr _ _ _ _ _ hq.2)
   | _ =>
-    intro mask n p σ τ
+    intro mask n p σ τ _
     rw [args_nil _ _ _ _ _ (by intro a b hab; cases hab)]
     simp only [applyUpdM]
     exact Covers.nil _
 
-/-! ## inquiry intrinsics: subscripts of the inquired argument -/
+/-! ## side condition of the coverage lemma -/
 
-/-- the first element of an argument spine carries no subscripts -/
-def firstPlain : Expr → Bool
-  | .cons e _ => !indexed e
-  | _ => true
-
-/-- no inquiry intrinsic in `e` is applied to a subscripted object (`size(w(idx(j):))`): without
-fixes/C11-inquiry-subscripts.patch `IntrinsicCall.reference_accesses` skips the whole first
-argument of an inquiry, also the subscripts that have to be evaluated -/
-def okE (tb : Nat → IAttr) : Expr → Bool
-  | .lit _ => true
-  | .var _ => true
-  | .nil => true
-  | .idx1 _ i => okE tb i
-  | .idx2 _ i j => okE tb i && okE tb j
-  | .idxs _ _ is => okE tb is
-  | .un _ e => okE tb e
-  | .bin _ a b => okE tb a && okE tb b
-  | .intr k args => (!(tb k).inquiry || firstPlain args) && okE tb args
-  | .fcall _ _ args => okE tb args
-  | .cons e rest => okE tb e && okE tb rest
-
-/-- hypothesis of the coverage lemma for an expression evaluated with `skip` flag `sk`: either
-the rule visits the subscripts of inquired arguments, or there are none -/
+/-- hypothesis of the coverage lemma for an expression evaluated with `skip` flag `sk` -/
 def OkAt (c : Ctx) (e : Expr) (sk : Bool) : Prop :=
-  c.rule.inqSubs = true ∨ (okE c.attrs e = true ∧ (sk = true → firstPlain e = true))
+  okE c e = true ∧ (sk = true → firstOk c e = true)
 
 theorem OkAt.sub {c : Ctx} {e e' : Expr} {sk : Bool} (h : OkAt c e sk)
-    (hs : okE c.attrs e = true → okE c.attrs e' = true) : OkAt c e' false := by
-  rcases h with h | h
-  · exact Or.inl h
-  · exact Or.inr ⟨hs h.1, fun h => by cases h⟩
+    (hs : okE c e = true → okE c e' = true) : OkAt c e' false :=
+  ⟨hs h.1, fun h => by cases h⟩
+
+theorem elemMode_ne_subs (ko : Option Kind) : elemMode ko = .subs → False := by
+  cases ko <;> simp [elemMode]
 
 /-! ## expressions -/
 
@@ -368,19 +432,20 @@ every write event of its evaluation, provided impure user functions mark their
 by-reference arguments READWRITE -/
 theorem acc_covers (c : Ctx) (ω : Oracle) (hfn : w = true → c.rule.callRW false false = true) (e : Expr) :
     ∀ (m : Mode) (sk : Bool) (n : Nat) (σ : Store), ModeOk m sk → OkAt c e sk →
+      (m = .subs → firstOk1 c e = true) →
       Covers w (acc c e m n).1 (evOf ω c.attrs e m sk σ) := by
   induction e with
-  | lit v => intro m sk n σ _ _; cases m <;> exact Covers.nil _
+  | lit v => intro m sk n σ _ _ _; cases m <;> exact Covers.nil _
   | var x =>
-    intro m sk n σ hm _
+    intro m sk n σ hm _ _
     cases m with
     | val => exact Covers.rd_single (a := ⟨x, .read, n, 0⟩) (by simp [acc]) rfl rfl
     | elem k => exact Covers.rd_single (a := ⟨x, k, n, 0⟩) (by simp [acc]) rfl hm.2
     | subs => exact Covers.nil _
     | spine ko mask s => exact Covers.rd_single (a := ⟨x, .read, n, 0⟩) (by simp [acc]) rfl rfl
   | idx1 a i ih =>
-    intro m sk n σ hm hq
-    have hi := ih .val false n σ rfl (hq.sub (fun h => by simpa only [okE] using h))
+    intro m sk n σ hm hq hsub
+    have hi := ih .val false n σ rfl (hq.sub (fun h => by simpa only [okE] using h)) (by intro h; cases h)
     simp only [evOf] at hi
     cases m with
     | val =>
@@ -396,11 +461,11 @@ theorem acc_covers (c : Ctx) (ω : Oracle) (hfn : w = true → c.rule.callRW fal
       simp only [acc, evOf, evalT]
       exact hi.both (Covers.rd_single (a := ⟨a, .read, (acc c i .val n).2, 1⟩) (by simp) rfl rfl)
   | idx2 a i j ihi ihj =>
-    intro m sk n σ hm hq
+    intro m sk n σ hm hq hsub
     have hi := ihi .val false n σ rfl
-      (hq.sub (fun h => by simp only [okE, Bool.and_eq_true] at h; exact h.1))
+      (hq.sub (fun h => by simp only [okE, Bool.and_eq_true] at h; exact h.1)) (by intro h; cases h)
     have hj := ihj .val false (acc c i .val n).2 (evalT ω c.attrs i false σ).st rfl
-      (hq.sub (fun h => by simp only [okE, Bool.and_eq_true] at h; exact h.2))
+      (hq.sub (fun h => by simp only [okE, Bool.and_eq_true] at h; exact h.2)) (by intro h; cases h)
     simp only [evOf] at hi hj
     cases m with
     | val =>
@@ -417,8 +482,8 @@ theorem acc_covers (c : Ctx) (ω : Oracle) (hfn : w = true → c.rule.callRW fal
       simp only [acc, evOf, evalT]
       exact (hi.both hj).both (Covers.rd_single (a := ⟨a, .read, (acc c j .val (acc c i .val n).2).2, 2⟩) (by simp) rfl rfl)
   | idxs a cnt is ih =>
-    intro m sk n σ hm hq
-    have hi := ih .val false n σ rfl (hq.sub (fun h => by simpa only [okE] using h))
+    intro m sk n σ hm hq hsub
+    have hi := ih .val false n σ rfl (hq.sub (fun h => by simpa only [okE] using h)) (by intro h; cases h)
     simp only [evOf] at hi
     cases m with
     | val =>
@@ -434,8 +499,8 @@ theorem acc_covers (c : Ctx) (ω : Oracle) (hfn : w = true → c.rule.callRW fal
       simp only [acc, evOf, evalT]
       exact hi.both (Covers.rd_single (a := ⟨a, .read, (acc c is .val n).2, cnt⟩) (by simp) rfl rfl)
   | un op e ih =>
-    intro m sk n σ _ hq
-    have h := ih .val false n σ rfl (hq.sub (fun h => by simpa only [okE] using h))
+    intro m sk n σ _ hq _
+    have h := ih .val false n σ rfl (hq.sub (fun h => by simpa only [okE] using h)) (by intro h; cases h)
     simp only [evOf] at h
     cases m with
     | subs => exact Covers.nil _
@@ -443,11 +508,11 @@ theorem acc_covers (c : Ctx) (ω : Oracle) (hfn : w = true → c.rule.callRW fal
     | elem k => simpa only [acc, evOf, evalT] using h
     | spine ko mask s => simpa only [acc, evOf, evalT] using h
   | bin op a b iha ihb =>
-    intro m sk n σ _ hq
+    intro m sk n σ _ hq _
     have ha := iha .val false n σ rfl
-      (hq.sub (fun h => by simp only [okE, Bool.and_eq_true] at h; exact h.1))
+      (hq.sub (fun h => by simp only [okE, Bool.and_eq_true] at h; exact h.1)) (by intro h; cases h)
     have hb := ihb .val false (acc c a .val n).2 (evalT ω c.attrs a false σ).st rfl
-      (hq.sub (fun h => by simp only [okE, Bool.and_eq_true] at h; exact h.2))
+      (hq.sub (fun h => by simp only [okE, Bool.and_eq_true] at h; exact h.2)) (by intro h; cases h)
     simp only [evOf] at ha hb
     cases m with
     | subs => exact Covers.nil _
@@ -455,16 +520,14 @@ theorem acc_covers (c : Ctx) (ω : Oracle) (hfn : w = true → c.rule.callRW fal
     | elem k => simp only [acc, evOf, evalT]; exact ha.both hb
     | spine ko mask s => simp only [acc, evOf, evalT]; exact ha.both hb
   | intr k args ih =>
-    intro m sk n σ _ hq
+    intro m sk n σ _ hq _
     have hq' : OkAt c args (c.attrs k).inquiry := by
-      rcases hq with hq | hq
-      · exact Or.inl hq
-      · have := hq.1
-        simp only [okE, Bool.and_eq_true, Bool.or_eq_true, Bool.not_eq_true'] at this
-        refine Or.inr ⟨this.2, fun hi => ?_⟩
-        rcases this.1 with h | h
-        · rw [hi] at h; cases h
-        · exact h
+      have := hq.1
+      simp only [okE, Bool.and_eq_true, Bool.or_eq_true, Bool.not_eq_true'] at this
+      refine ⟨this.2, fun hi => ?_⟩
+      rcases this.1 with h | h
+      · rw [hi] at h; cases h
+      · exact h
     have hok : ModeOk (.spine (if c.rule.intrRW (c.attrs k).pure (c.attrs k).inquiry false = true
         then some Kind.readwrite else none) 0 (c.attrs k).inquiry) (c.attrs k).inquiry := by
       refine ⟨rfl, ?_⟩
@@ -472,7 +535,7 @@ theorem acc_covers (c : Ctx) (ω : Oracle) (hfn : w = true → c.rule.callRW fal
       split at hk'
       · cases hk'; rfl
       · cases hk'
-    have h := ih _ (c.attrs k).inquiry n σ hok hq'
+    have h := ih _ (c.attrs k).inquiry n σ hok hq' (by intro h; cases h)
     simp only [evOf] at h
     cases m with
     | subs => exact Covers.nil _
@@ -480,10 +543,11 @@ theorem acc_covers (c : Ctx) (ω : Oracle) (hfn : w = true → c.rule.callRW fal
     | elem k => simpa only [acc, evOf, evalT] using h
     | spine ko mask s => simpa only [acc, evOf, evalT] using h
   | fcall p f args ih =>
-    intro m sk n σ _ hq
+    intro m sk n σ _ hq _
     have hok : ModeOk (.spine (some (kindOf (c.rule.callRW p false))) 0 false) false :=
       ⟨rfl, fun k hk => by cases hk; exact kindOf_isRead _⟩
-    have h := ih _ false n σ hok (hq.sub (fun h => by simpa only [okE] using h))
+    have hqa : okE c args = true := by simpa only [okE] using hq.1
+    have h := ih _ false n σ hok (hq.sub (fun h => by simpa only [okE] using h)) (by intro h; cases h)
     simp only [evOf] at h
     have key : Covers w (acc c args (.spine (some (kindOf (c.rule.callRW p false))) 0 false) n).1
         (evalT ω c.attrs (.fcall p f args) sk σ).ev := by
@@ -493,33 +557,52 @@ theorem acc_covers (c : Ctx) (ω : Oracle) (hfn : w = true → c.rule.callRW fal
       | false =>
         simp only [Bool.false_eq_true, if_false]
         refine h.append ?_
-        exact applyUpd_covered c ω _ args false _ (fun hw => by rw [hfn hw]; rfl) 0 n 0 σ _
+        exact applyUpd_covered c ω _ args false _ (fun hw => by rw [hfn hw]; rfl) 0 n 0 σ _ hqa
     cases m with
     | subs => exact Covers.nil _
     | val => simpa only [acc, evOf] using key
     | elem k => simpa only [acc, evOf] using key
     | spine ko mask s => simpa only [acc, evOf] using key
+  | cb f names rd dv =>
+    intro m sk n σ _ hq hsub
+    have hwf : cbNode c names rd dv = true := by simpa only [okE] using hq.1
+    have hval : Covers w (cbAcc c names n) (rd.map (fun x => Event.rd (x, 0, 0))) :=
+      cbAcc_covers_rd c names rd dv n hwf rd (fun _ h => h)
+    cases m with
+    | val => simpa only [acc, evOf, evalT] using hval
+    | elem k => simpa only [acc, evOf, evalT] using hval
+    | spine ko mask s => simpa only [acc, evOf, evalT] using hval
+    | subs =>
+      have hf := hsub rfl
+      simp only [acc, evOf, subsT]
+      by_cases hi : c.rule.inqCb = true
+      · simp only [hi, if_true]
+        exact cbAcc_covers_rd c names rd dv n hwf _ (fun x hx => (List.mem_filter.mp hx).1)
+      · have hi' : c.rule.inqCb = false := by cases hq : c.rule.inqCb <;> simp_all
+        simp only [firstOk1, hi', Bool.and_false, Bool.false_or, List.isEmpty_iff] at hf
+        rw [hf]
+        exact Covers.nil _
   | nil =>
-    intro m sk n σ _ _
+    intro m sk n σ _ _ _
     cases m <;> exact Covers.nil _
   | cons e rest ihe ihr =>
-    intro m sk n σ hm hq
+    intro m sk n σ hm hq hsub
     have hqe : OkAt c e false := hq.sub (fun h => by simp only [okE, Bool.and_eq_true] at h; exact h.1)
     have hqr : OkAt c rest false := hq.sub (fun h => by simp only [okE, Bool.and_eq_true] at h; exact h.2)
     cases m with
     | subs => exact Covers.nil _
     | val =>
       cases hm
-      have h1 := ihe .val false n σ rfl hqe
-      have h2 := ihr .val false (acc c e .val n).2 (evalT ω c.attrs e false σ).st rfl hqr
+      have h1 := ihe .val false n σ rfl hqe (by intro h; cases h)
+      have h2 := ihr .val false (acc c e .val n).2 (evalT ω c.attrs e false σ).st rfl hqr (by intro h; cases h)
       simp only [evOf] at h1 h2 ⊢
       rw [evalT_cons_false]
       simp only [acc]
       exact h1.both h2
     | elem k =>
       obtain ⟨rfl, _⟩ := hm
-      have h1 := ihe .val false n σ rfl hqe
-      have h2 := ihr .val false (acc c e .val n).2 (evalT ω c.attrs e false σ).st rfl hqr
+      have h1 := ihe .val false n σ rfl hqe (by intro h; cases h)
+      have h2 := ihr .val false (acc c e .val n).2 (evalT ω c.attrs e false σ).st rfl hqr (by intro h; cases h)
       simp only [evOf] at h1 h2 ⊢
       rw [evalT_cons_false]
       simp only [acc]
@@ -528,36 +611,32 @@ theorem acc_covers (c : Ctx) (ω : Oracle) (hfn : w = true → c.rule.callRW fal
       obtain ⟨rfl, hk⟩ := hm
       cases s with
       | true =>
+        have hfirst : firstOk1 c e = true := by simpa only [firstOk] using hq.2 rfl
         simp only [evOf]
         rw [evalT_cons_true]
         simp only [acc, if_true]
         by_cases hs : c.rule.inqSubs = true
-        · have h1 := ihe .subs false n σ trivial hqe
+        · have h1 := ihe .subs false n σ trivial hqe (fun _ => hfirst)
           have h2 := ihr (.spine ko (mask / 2) false) false (acc c e .subs n).2
-            (subsT ω c.attrs e σ).1 ⟨rfl, hk⟩ hqr
+            (subsT ω c.attrs e σ).1 ⟨rfl, hk⟩ hqr (by intro h; cases h)
           simp only [evOf] at h1 h2
           simp only [hs, if_true]
           exact h1.both h2
-        · have hfp : indexed e = false := by
-            rcases hq with hq | hq
-            · exact absurd hq hs
-            · have := hq.2 rfl
-              simpa only [firstPlain, Bool.not_eq_true'] using this
-          rw [subsT_plain _ _ _ _ hfp]
-          have h2 := ihr (.spine ko (mask / 2) false) false n σ ⟨rfl, hk⟩ hqr
+        · rw [subsT_quiet c ω e σ hfirst hs]
+          have h2 := ihr (.spine ko (mask / 2) false) false n σ ⟨rfl, hk⟩ hqr (by intro h; cases h)
           simp only [evOf] at h2
           simp only [hs, Bool.false_eq_true, if_false, List.nil_append]
           exact h2
       | false =>
         have h1 := ihe (elemMode (if mask % 2 = 1 then some Kind.readwrite else ko)) false n σ
-          (elemMode_ok (headKind_ok mask hk)) hqe
+          (elemMode_ok (headKind_ok mask hk)) hqe (fun h => (elemMode_ne_subs _ h).elim)
         have h2 := ihr (.spine ko (mask / 2) false) false
           (acc c e (elemMode (if mask % 2 = 1 then some Kind.readwrite else ko)) n).2
-          (evalT ω c.attrs e false σ).st ⟨rfl, hk⟩ hqr
+          (evalT ω c.attrs e false σ).st ⟨rfl, hk⟩ hqr (by intro h; cases h)
         have h1' : Covers w (acc c e (elemMode (if mask % 2 = 1 then some Kind.readwrite else ko)) n).1
             (evalT ω c.attrs e false σ).ev := by
           cases hem : elemMode (if mask % 2 = 1 then some Kind.readwrite else ko) with
-          | subs => cases ko <;> (split at hem <;> simp [elemMode] at hem)
+          | subs => exact (elemMode_ne_subs _ hem).elim
           | val => rw [hem] at h1; simpa only [evOf] using h1
           | elem k => rw [hem] at h1; simpa only [evOf] using h1
           | spine a b d => cases ko <;> (split at hem <;> simp [elemMode] at hem)
@@ -584,13 +663,13 @@ def okS (c : Ctx) : Stmt → Bool
   | .call p mods _ _ => c.rule.callRW p true || (c.rule.useIntents && p && mods.isSome)
   | .icall k _ _ => c.rule.intrRW (c.attrs k).pure (c.attrs k).inquiry true
 
-/-- `e` contains no inquiry of a subscripted object, or the rule visits such subscripts -/
-def okX (c : Ctx) (e : Expr) : Bool := c.rule.inqSubs || okE c.attrs e
+/-- side condition on an expression of a statement (`okE`) -/
+def okX (c : Ctx) (e : Expr) : Bool := okE c e
 
-/-- side condition for reads: every CodeBlock's may-read / may-define variables are among the
-names of its text when the rule records those (else: it mentions no variable at all, since
-nothing is recorded), and no inquiry of a subscripted object unless the rule visits the
-subscripts -/
+/-- side condition for a statement: every CodeBlock (statement or expression) is well-formed for
+the rule — its may-read / may-define / designated variables are among the names of its text when
+the rule records those, else it mentions no variable at all — and every inquiry intrinsic is
+applied to an object whose subscripts the rule visits -/
 def okES (c : Ctx) : Stmt → Bool
   | .skip => true
   | .seq a b => okES c a && okES c b
@@ -600,16 +679,19 @@ def okES (c : Ctx) : Stmt → Bool
   | .loop _ lo hi st b => okX c lo && okX c hi && okX c st && okES c b
   | .while cnd b => okX c cnd && okES c b
   | .ret => true
-  | .opaque _ names rd wr =>
-      if c.rule.cbRW then (rd ++ wr).all (fun x => names.contains x) else rd.isEmpty && wr.isEmpty
+  | .opaque _ names rd wr => cbNode c names (rd ++ wr) none
   | .call _ _ _ args => okX c args
-  | .icall k _ args => c.rule.inqSubs || ((!(c.attrs k).inquiry || firstPlain args) && okE c.attrs args)
+  | .icall k _ args => (!(c.attrs k).inquiry || firstOk c args) && okE c args
 
-theorem okX_at {c : Ctx} {e : Expr} (h : okX c e = true) : OkAt c e false := by
-  simp only [okX, Bool.or_eq_true] at h
-  rcases h with h | h
-  · exact Or.inl h
-  · exact Or.inr ⟨h, fun h => by cases h⟩
+theorem okX_at {c : Ctx} {e : Expr} (h : okX c e = true) : OkAt c e false :=
+  ⟨h, fun h => by cases h⟩
+
+/-- coverage of an expression visited by `reference_accesses` -/
+theorem acc_val (c : Ctx) (ω : Oracle) (hfn : w = true → c.rule.callRW false false = true) (e : Expr)
+    (n : Nat) (σ : Store) (hq : okE c e = true) :
+    Covers w (acc c e .val n).1 (evalT ω c.attrs e false σ).ev := by
+  have := acc_covers c ω hfn e .val false n σ rfl ⟨hq, fun h => by cases h⟩ (by intro h; cases h)
+  simpa only [evOf] using this
 
 /-- index accesses of a reference LHS (visited at location 0), its final location and the
 number of indices recorded for the target -/
@@ -678,23 +760,22 @@ theorem changeReadToWrite_ref_iff (I : List Access) (x l k : Nat) :
 /-- the subscripts of the target are covered by the index accesses; the assigned location
 belongs to the target variable -/
 theorem lhsT_covers (c : Ctx) (ω : Oracle) (hfn : w = true → c.rule.callRW false false = true) (lhs : Expr)
-    (hq : OkAt c lhs false) (σ : Store) :
+    (hq : okE c lhs = true) (σ : Store) :
     Covers w (lhsIdx c lhs).1 (lhsT ω c.attrs lhs σ).2.1 ∧
       ∀ l, (lhsT ω c.attrs lhs σ).2.2 = some l → l.1 = lhs.refVar := by
   cases lhs with
   | var x => exact ⟨Covers.nil _, fun l h => by simp [lhsT] at h; subst h; rfl⟩
   | idx1 a i =>
-    have := acc_covers c ω hfn i .val false 0 σ rfl (hq.sub (fun h => by simpa only [okE] using h))
+    have := acc_val c ω hfn i 0 σ (by simpa only [okE] using hq)
     exact ⟨this, fun l h => by simp [lhsT] at h; subst h; rfl⟩
   | idx2 a i j =>
     refine ⟨?_, fun l h => by simp [lhsT] at h; subst h; rfl⟩
-    have h1 := acc_covers c ω hfn i .val false 0 σ rfl
-      (hq.sub (fun h => by simp only [okE, Bool.and_eq_true] at h; exact h.1))
-    have h2 := acc_covers c ω hfn j .val false (acc c i .val 0).2 (evalT ω c.attrs i false σ).st rfl
-      (hq.sub (fun h => by simp only [okE, Bool.and_eq_true] at h; exact h.2))
+    simp only [okE, Bool.and_eq_true] at hq
+    have h1 := acc_val c ω hfn i 0 σ hq.1
+    have h2 := acc_val c ω hfn j (acc c i .val 0).2 (evalT ω c.attrs i false σ).st hq.2
     exact h1.both h2
   | idxs a n is =>
-    have := acc_covers c ω hfn is .val false 0 σ rfl (hq.sub (fun h => by simpa only [okE] using h))
+    have := acc_val c ω hfn is 0 σ (by simpa only [okE] using hq)
     exact ⟨this, fun l h => by simp [lhsT] at h; subst h; rfl⟩
   | _ => exact ⟨Covers.nil _, fun l h => by simp [lhsT] at h⟩
 
@@ -743,7 +824,7 @@ theorem accS_covers (c : Ctx) (ω : Oracle) (hfn : w = true → c.rule.callRW fa
     simp only [accS, Option.some.injEq] at h
     cases h
     rw [bumpIf_fst]
-    simp only [okES] at hq
+    simp only [okES, cbNode, Option.toList_none, List.append_nil, Option.isNone_none, Bool.and_true] at hq
     by_cases hcb : c.rule.cbRW = true
     · simp only [hcb, if_true, List.all_eq_true, List.mem_append, List.contains_iff_mem] at hq ⊢
       simp only [execT]
@@ -758,7 +839,7 @@ theorem accS_covers (c : Ctx) (ω : Oracle) (hfn : w = true → c.rule.callRW fa
         intro _
         refine ⟨⟨x, .readwrite, n, 0⟩, List.mem_map.mpr ⟨x, hq x (Or.inr hx), rfl⟩, ?_, rfl⟩
         rw [← hxl.2]
-    · simp only [hcb, Bool.false_eq_true, if_false, Bool.and_eq_true, List.isEmpty_iff] at hq ⊢
+    · simp only [hcb, Bool.false_eq_true, if_false, List.isEmpty_iff, List.append_eq_nil_iff] at hq ⊢
       obtain ⟨rfl, rfl⟩ := hq
       simp only [execT, List.map_nil, applyUpd, List.append_nil]
       exact Covers.nil _
@@ -792,9 +873,8 @@ theorem accS_covers (c : Ctx) (ω : Oracle) (hfn : w = true → c.rule.callRW fa
         cases h
         obtain ⟨rfl, -⟩ := changeReadToWrite_ref _ _ _ _ _ hl
         rw [bumpIf_fst]
-        obtain ⟨hidx, hloc⟩ := lhsT_covers c ω hfn lhs (okX_at hq.1) (evalT ω c.attrs rhs false σ).st
-        have hrhs := acc_covers c ω hfn rhs .val false n σ rfl (okX_at hq.2)
-        simp only [evOf] at hrhs
+        obtain ⟨hidx, hloc⟩ := lhsT_covers c ω hfn lhs hq.1 (evalT ω c.attrs rhs false σ).st
+        have hrhs := acc_val c ω hfn rhs n σ hq.2
         simp only [execT]
         split
         · rename_i l hl'
@@ -815,8 +895,7 @@ theorem accS_covers (c : Ctx) (ω : Oracle) (hfn : w = true → c.rule.callRW fa
     · rename_i r1 h1
       cases h
       rw [bumpIf_fst]
-      have hc := acc_covers c ω hfn cnd .val false n σ rfl (okX_at hq.1)
-      simp only [evOf] at hc
+      have hc := acc_val c ω hfn cnd n σ hq.1
       simp only [execT]
       split
       · exact hc.both (iht false _ _ r1 hok hq.2 h1)
@@ -837,8 +916,7 @@ theorem accS_covers (c : Ctx) (ω : Oracle) (hfn : w = true → c.rule.callRW fa
       · rename_i r2 h2
         cases h
         rw [bumpIf_fst]
-        have hc := acc_covers c ω hfn cnd .val false n σ rfl (okX_at hq.1.1)
-        simp only [evOf] at hc
+        have hc := acc_val c ω hfn cnd n σ hq.1.1
         simp only [execT]
         split
         · exact (hc.both (iht false _ _ r1 hokt hq.1.2 h1)).left
@@ -856,12 +934,10 @@ theorem accS_covers (c : Ctx) (ω : Oracle) (hfn : w = true → c.rule.callRW fa
       cases h
       rw [bumpIf_fst]
       simp only [execT]
-      have h1 := acc_covers c ω hfn lo .val false n σ rfl (okX_at hq.1.1.1)
-      have h2 := acc_covers c ω hfn hi .val false (acc c lo .val n).2 (evalT ω c.attrs lo false σ).st rfl
-        (okX_at hq.1.1.2)
-      have h3 := acc_covers c ω hfn st .val false (acc c hi .val (acc c lo .val n).2).2
-        (evalT ω c.attrs hi false (evalT ω c.attrs lo false σ).st).st rfl (okX_at hq.1.2)
-      simp only [evOf] at h1 h2 h3
+      have h1 := acc_val c ω hfn lo n σ hq.1.1.1
+      have h2 := acc_val c ω hfn hi (acc c lo .val n).2 (evalT ω c.attrs lo false σ).st hq.1.1.2
+      have h3 := acc_val c ω hfn st (acc c hi .val (acc c lo .val n).2).2
+        (evalT ω c.attrs hi false (evalT ω c.attrs lo false σ).st).st hq.1.2
       apply runItersT_covers
       · intro τ
         exact Covers.cons (Covers.cons (Covers.right (ih true _ τ rb hok hq.2 hb)))
@@ -880,9 +956,7 @@ theorem accS_covers (c : Ctx) (ω : Oracle) (hfn : w = true → c.rule.callRW fa
       simp only [execT]
       apply whileT_covers
       · intro τ
-        have := acc_covers c ω hfn cnd .val false n τ rfl (okX_at hq.1)
-        simp only [evOf] at this
-        exact this.left
+        exact (acc_val c ω hfn cnd n τ hq.1).left
       · intro τ
         exact Covers.right (ih false _ τ r1 hok hq.2 h1)
       · exact Covers.nil _
@@ -896,13 +970,13 @@ theorem accS_covers (c : Ctx) (ω : Oracle) (hfn : w = true → c.rule.callRW fa
     simp only [execT]
     have hargs := acc_covers c ω hfn args
       (.spine (some (kindOf (c.rule.callRW p true))) (if (c.rule.useIntents && p) = true then mods.getD 0 else 0) false)
-      false n σ ⟨rfl, fun k hk => by cases hk; exact kindOf_isRead _⟩ (okX_at hq)
+      false n σ ⟨rfl, fun k hk => by cases hk; exact kindOf_isRead _⟩ (okX_at hq) (by intro h; cases h)
     simp only [evOf] at hargs
     refine hargs.append ?_
     cases mods with
     | none =>
       simp only
-      refine applyUpd_covered c ω _ args false _ (fun hw => ?_) _ n 0 σ _
+      refine applyUpd_covered c ω _ args false _ (fun hw => ?_) _ n 0 σ _ hq
       rcases hok hw with h | h
       · rw [h]; rfl
       · simp at h
@@ -910,21 +984,19 @@ theorem accS_covers (c : Ctx) (ω : Oracle) (hfn : w = true → c.rule.callRW fa
       simp only
       by_cases hu : (c.rule.useIntents && p) = true
       · simp only [hu, if_true, Option.getD_some]
-        exact applyUpdM_covered c ω _ _ args m n 0 σ _
-      · refine applyUpdM_covered_all c ω _ args _ (fun hw => ?_) _ m n 0 σ _
+        exact applyUpdM_covered c ω _ _ args m n 0 σ _ hq
+      · refine applyUpdM_covered_all c ω _ args _ (fun hw => ?_) _ m n 0 σ _ hq
         rcases hok hw with h | h
         · rw [h]; rfl
         · exact absurd (by simp only [Bool.and_eq_true]; exact h.1) hu
   | icall k f args =>
     intro bump n σ r hok hq h
+    simp only [okES, Bool.and_eq_true, Bool.or_eq_true, Bool.not_eq_true'] at hq
     have hq' : OkAt c args (c.attrs k).inquiry := by
-      simp only [okES, Bool.and_eq_true, Bool.or_eq_true, Bool.not_eq_true'] at hq
-      rcases hq with hq | hq
-      · exact Or.inl hq
-      · refine Or.inr ⟨hq.2, fun hi => ?_⟩
-        rcases hq.1 with h' | h'
-        · rw [hi] at h'; cases h'
-        · exact h'
+      refine ⟨hq.2, fun hi => ?_⟩
+      rcases hq.1 with h' | h'
+      · rw [hi] at h'; cases h'
+      · exact h'
     simp only [okS] at hok
     simp only [accS, Option.some.injEq] at h
     cases h
@@ -933,10 +1005,10 @@ theorem accS_covers (c : Ctx) (ω : Oracle) (hfn : w = true → c.rule.callRW fa
     by_cases hrw : c.rule.intrRW (c.attrs k).pure (c.attrs k).inquiry true = true
     · simp only [hrw, if_true]
       have := acc_covers c ω hfn args (.spine (some .readwrite) 0 (c.attrs k).inquiry) (c.attrs k).inquiry n σ
-        ⟨rfl, fun k hk => by cases hk; rfl⟩ hq'
+        ⟨rfl, fun k hk => by cases hk; rfl⟩ hq' (by intro h; cases h)
       simp only [evOf] at this
       refine this.append ?_
-      exact applyUpd_covered c ω _ args _ _ (fun _ => rfl) 0 n 0 σ _
+      exact applyUpd_covered c ω _ args _ _ (fun _ => rfl) 0 n 0 σ _ hq.2
     · have hwf : w = false := by
         cases w with
         | false => rfl
@@ -944,7 +1016,7 @@ theorem accS_covers (c : Ctx) (ω : Oracle) (hfn : w = true → c.rule.callRW fa
       subst hwf
       simp only [hrw, Bool.false_eq_true, if_false]
       have := acc_covers c ω hfn args (.spine none 0 (c.attrs k).inquiry) (c.attrs k).inquiry n σ
-        ⟨rfl, fun k hk => by cases hk⟩ hq'
+        ⟨rfl, fun k hk => by cases hk⟩ hq' (by intro h; cases h)
       simp only [evOf] at this
       refine this.append ?_
       intro ev hev
@@ -1099,6 +1171,24 @@ theorem acc_bnd (c : Ctx) (e : Expr) : ∀ (m : Mode) (n : Nat), Bnd n (acc c e 
     | elem k => exact (ih _ n).succ
     | spine ko mask s => exact (ih _ n).succ
   | nil => intro m n; cases m <;> exact Bnd.nil n
+  | cb f names rd dv =>
+    intro m n
+    have hb : Bnd n (cbAcc c names n, n) := by
+      refine ⟨Nat.le_refl _, fun a ha => ?_⟩
+      simp only [cbAcc] at ha
+      split at ha
+      · obtain ⟨x, _, rfl⟩ := List.mem_map.mp ha
+        exact ⟨Nat.le_refl _, Nat.le_refl _⟩
+      · cases ha
+    cases m with
+    | subs =>
+      simp only [acc]
+      split
+      · exact hb
+      · exact Bnd.nil n
+    | val => exact hb
+    | elem k => exact hb
+    | spine ko mask s => exact hb
   | cons e rest ihe ihr =>
     intro m n
     cases m with
